@@ -258,6 +258,16 @@ func genInstTraceOpt(r *rng, viol func(clause, sig, detail string), io instOpts)
 					break
 				}
 			}
+			if r.chance(35) {
+				// the same member first tries a DECIDE bound to other supplemental data
+				if d.deliverForeignSupp(sender, 0, gpbft.DECIDE_PHASE, vv, jr, gpbft.COMMIT_PHASE) {
+					viol("the justification of a decision is for the instance's supplemental data (votes bound to other supplemental data are not counted)", "c03-foreign-supplemental-counted",
+						fmt.Sprintf("DECIDE of member %d with other commitments was accepted by the instance", sender))
+				}
+				if d.host.decision != nil {
+					break
+				}
+			}
 			_, err := d.deliver(sender, 0, gpbft.DECIDE_PHASE, vv, d.justify(jr, gpbft.COMMIT_PHASE, vv))
 			check(err, "decide-finale")
 		}
